@@ -36,7 +36,7 @@ LEVEL_TEXT = ("Lean, for EVERY LR table, text and state: Unit.parse/Quantity.par
               "`every semantic action is stable under extension of the intern table', Proofs/ParseStable + Proofs/ParseIdem). Tied to "
               "the code by differential execution of parse on generated texts and an implementation "
               "oracle for exception types, idempotence, registry snapshots and magnitude types.")
-LEVEL_NOTE = ("Magnitude type: proved that an accepted quantity never carries a Decimal and that its unit exists (parse_magnitude_type); and that the magnitude is int(text) of an integer literal or float(text) of a decimal literal, the callbacks never turning one into the other (parse_magnitude_as_written, parse_magnitude_int_iff); that the literal is the NUMBER token of the input (not some other piece of text) is decided by the oracle and the correspondence. The model declines products of prefixes with different bases; there "
+LEVEL_NOTE = ("Magnitude type: proved that an accepted quantity never carries a Decimal and that its unit exists (parse_magnitude_type); and that the magnitude is int(text) of an integer literal or float(text) of a decimal literal, the callbacks never turning one into the other (parse_magnitude_as_written, parse_magnitude_int_iff), an int magnitude being the decimal value of a text of the shape [+-]digits with no point and no exponent (parse_int_magnitude_is_integer_literal); that the literal is the NUMBER token of the input (not some other piece of text) is decided by the oracle and the correspondence. The model declines products of prefixes with different bases; there "
               "the implementation is only checked by the oracle. Trusted: Lean kernel; Model/LALR.lean as a model of the embedded lark "
               "engine; the hand-written terminal matchers (see C16).")
 TECHNIQUE = "Lean 4 induction over the LR driver (error closure and registry frame for every table/text/state) + differential correspondence + implementation oracle"
@@ -47,7 +47,7 @@ THEOREMS = [
     "Measured.C17.parse_frame_unit", "Measured.C17.parse_frame_quantity",
     "Measured.C17.parse_graph_unit", "Measured.C17.parse_graph_quantity",
     "Measured.parseWith_stable", "Measured.parseWith_idempotent", "Measured.transformerAct_ok",
-    "Measured.C17.parse_idempotent_unit", "Measured.C17.parse_idempotent_quantity", "Measured.C17.parse_repeatable", "Measured.C17.parse_magnitude_type", "Measured.C17.parse_magnitude_as_written", "Measured.C17.parse_magnitude_int_iff",
+    "Measured.C17.parse_idempotent_unit", "Measured.C17.parse_idempotent_quantity", "Measured.C17.parse_repeatable", "Measured.C17.parse_magnitude_type", "Measured.C17.parse_magnitude_as_written", "Measured.C17.parse_magnitude_int_iff", "Measured.C17.parse_int_magnitude_is_integer_literal", "Measured.pyInt_ok_shape",
     "Measured.Obligations.reachable_good", "Measured.Obligations.reachable_parse_idempotent_unit",
     "Measured.Obligations.reachable_parse_idempotent_quantity",
 ]
